@@ -304,6 +304,110 @@ fn twin_case(ctx: &Ctx, case: u64, acc: &mut Acc) -> Verdict {
     Ok(())
 }
 
+/// "A stale-epoch timer changes nothing", with real timers and a long life: several hundred connection epochs on
+/// one instance (the 8-bit epoch token goes all the way round), and after every epoch change the timers the
+/// instance itself scheduled in the epochs just ended are handed back - while it is idle and after it has become
+/// active again. Each must return Ok, emit nothing and leave the observable state (hook snapshot included)
+/// exactly as it was.
+fn wrap_case(ctx: &Ctx, case: u64, acc: &mut Acc) -> Verdict {
+    let mut r = Rng64::derive(ctx.seed, 0x17D, case);
+    let mut cfg = crate::node::Cfg::simple();
+    cfg.notify_down = r.chance(1, 2);
+    cfg.pg = Some((cfg.p / 2, 2));
+    if r.chance(1, 2) {
+        cfg.pa = Some((cfg.p * 3, 1));
+        cfg.pad = Some((cfg.p * 4, 2));
+    }
+    let pol = if r.chance(1, 2) { crate::ids::Renew::Bump } else { crate::ids::Renew::None };
+    let mut node = Node::new(Id::with(0, 0, pol), cfg, crate::codecs::CodecKind::Hand, crate::bcast::HdlCfg::disabled(), r.next());
+    let total = 270 + r.below(330);
+    let pre = r.below(total);
+    let kinds = [r.below(3), r.below(3)];
+    // timers of the running epoch / of epochs that have ended (at most three epochs old)
+    let mut current: Vec<Timer<Id>> = vec![];
+    let mut ended: Vec<(u64, Timer<Id>)> = vec![];
+    let mut handed_back = 0u64;
+    let mut while_active = 0u64;
+    macro_rules! go {
+        ($op:expr) => {{
+            let rec = node.call($op);
+            if rec.res.is_panic() {
+                acc.inconclusive += 1;
+                return Ok(());
+            }
+            for (t, _) in rec.scheds() {
+                if !matches!(t, Timer::RemoveDown(_)) {
+                    current.push(t.clone());
+                }
+            }
+            rec
+        }};
+    }
+    for i in 0..total {
+        let kind = if i < pre { kinds[0] } else { kinds[1] };
+        let peer = Id::new(1 + (i % 5) as u16, ((i / 5) % 250) as u8);
+        // (re)activate: the timers scheduled from here on belong to the new epoch
+        let before = current.len();
+        let rec = go!(Op::Apply(vec![Member::new(peer, (i % 5) as u16, State::Alive)], r.chance(1, 2)));
+        let _ = (before, rec);
+        // stale timers handed back while active in a later epoch
+        for _ in 0..r.below(3) {
+            if ended.is_empty() {
+                break;
+            }
+            let (_, t) = ended.swap_remove(r.usize(ended.len()));
+            let rec = node.call(Op::Timer(t.clone()));
+            ensure!(rec.res == Res::Ok, "C17/rejected-input-result", "timer {t:?} of an ended epoch returned {:?} (epoch change #{i})", rec.res);
+            ensure!(rec.evs.is_empty(), "C17/rejected-input-effect", "timer {t:?} of an ended epoch emitted {:?} (epoch change #{i}, current token {})", rec.evs, rec.pre.snap.timer_token);
+            ensure!(rec.pre == rec.post, "C17/rejected-input-changed-state", "timer {t:?} of an ended epoch changed the observable state (epoch change #{i})");
+            handed_back += 1;
+            while_active += u64::from(rec.pre.snap.connection_state == 1);
+        }
+        // end the epoch
+        match kind {
+            0 => {
+                let actives: Vec<Id> = node.last.active.clone();
+                let ups: Vec<Member<Id>> = actives.iter().map(|m| Member::new(*m, u16::MAX, State::Down)).collect();
+                go!(Op::Apply(ups, false));
+            }
+            1 => {
+                let me = node.id();
+                go!(Op::ChangeId(Id::with(me.addr, me.gen.wrapping_add(1), pol)));
+            }
+            _ => {
+                go!(Op::Leave);
+                go!(Op::Reuse);
+            }
+        }
+        // everything scheduled so far belongs to epochs that have ended (the ops above schedule nothing that
+        // belongs to the next one: the instance is not active)
+        if node.last.snap.connection_state != 1 {
+            for t in current.drain(..) {
+                ended.push((i, t));
+            }
+        }
+        ended.retain(|(e, _)| i - *e <= 3);
+        for _ in 0..r.below(2) {
+            if ended.is_empty() {
+                break;
+            }
+            let (_, t) = ended.swap_remove(r.usize(ended.len()));
+            let rec = node.call(Op::Timer(t.clone()));
+            ensure!(rec.res == Res::Ok, "C17/rejected-input-result", "timer {t:?} of an ended epoch returned {:?} (epoch change #{i})", rec.res);
+            ensure!(rec.evs.is_empty(), "C17/rejected-input-effect", "timer {t:?} of an ended epoch emitted {:?} (epoch change #{i})", rec.evs);
+            ensure!(rec.pre == rec.post, "C17/rejected-input-changed-state", "timer {t:?} of an ended epoch changed the observable state (epoch change #{i})");
+            handed_back += 1;
+        }
+    }
+    acc.tally("wrap_histories", 1);
+    acc.tally("real_stale_timers_handed_back", handed_back);
+    acc.tally("real_stale_timers_handed_back_while_active_again", while_active);
+    acc.max("epoch_changes_in_one_history", total);
+    acc.nontrivial(fp(&("wrap", case, total, pre, kinds)));
+    acc.sample(|| json!({"workload": "wrap", "epoch_changes": total, "stale_timers_handed_back": handed_back, "of_which_while_active_again": while_active}));
+    Ok(())
+}
+
 pub fn check() -> Check {
     Check {
         id: "C17",
@@ -311,7 +415,10 @@ pub fn check() -> Check {
         rule: "base histories of 120 calls from the single-instance driver (crafted/corrupted datagrams, timers in/out of order, every API method) executed three times on fresh instances with the same seed: twice verbatim (determinism) and once with 1..=5 rejected inputs of 12 classes inserted at random points (class verified by the harness's own staged parse); every undisturbed call must produce identical results, datagrams, timers, notifications and post-state, and the RNG position is compared through 8 further random-dependent calls. Non-trivial: at least one insertion; distinct by (case, classes, points).",
         assumptions: &["the harness handler/codec are deterministic"],
         required: &["twin_runs_completed", "inserted/StaleTimer", "inserted/Undecodable", "inserted/NotForUs", "inserted/InvalidConfig"],
-        workloads: vec![Workload { name: "twin", f: twin_case, quick: 48_000, thorough: 600_000, flav: Flav::Checked }],
+        workloads: vec![
+            Workload { name: "twin", f: twin_case, quick: 48_000, thorough: 600_000, flav: Flav::Checked },
+            Workload { name: "wrap", f: wrap_case, quick: 480, thorough: 12_000, flav: Flav::Checked },
+        ],
         exhaustive: false,
         aggregate: None,
     }
